@@ -19,7 +19,7 @@ import (
 
 // Field is one addressed field: its class and, for near-misses, the kind.
 type Field struct {
-	Class string `json:"class"` // correct | wrong | near | empty | absent
+	Class string `json:"class"` // correct | wrong | near | alt | empty | absent | nodata (recipients only: the confirmation has no SubjectConfirmationData)
 	Kind  string `json:"kind,omitempty"`
 }
 
@@ -46,6 +46,10 @@ type Case struct {
 	// Warm: the same ServiceProvider value has processed an ordinary valid login before this message.
 	Trust string `json:"trust,omitempty"`
 	Warm  bool   `json:"warm,omitempty"`
+	// Format attribute of the Issuer elements: "" = the entity format | "-" = no attribute | literal.  Whatever
+	// it says, the value must be the IdP's entity ID.
+	RespIssuerFormat string `json:"resp_issuer_format,omitempty"`
+	AsrtIssuerFormat string `json:"asrt_issuer_format,omitempty"`
 	// Noise: options of the SP that concern only what it sends (see spkit.Noise); the verdict must not depend on them
 	Noise uint64 `json:"noise,omitempty"`
 }
@@ -87,7 +91,17 @@ func value(f Field, correct string) *string {
 }
 
 var alts = map[string]string{"sp-metadata": spkit.SPMetadata, "sp-entity": spkit.SPEntity, "sp-acs": spkit.SPACS, "sp-slo": spkit.SPSLO, "idp-sso": spkit.IDPSSO, "idp-entity": spkit.IDPEntity}
-var altKinds = []string{"sp-metadata", "sp-entity", "sp-acs", "sp-slo", "idp-sso", "idp-entity"}
+var altKinds = []string{"sp-metadata", "sp-entity", "sp-acs", "sp-slo", "idp-sso", "idp-entity", "received-at"}
+
+// valueAt is value() with the one alternative that depends on the case: "received-at" is the URL at which the
+// message was delivered when that differs from the correct value (the library tolerates it as Destination;
+// no other field may carry it instead of its own correct value).
+func valueAt(f Field, correct, at string) *string {
+	if f.Class == "alt" && f.Kind == "received-at" && at != correct {
+		return forge.S(at)
+	}
+	return value(f, correct)
+}
 
 func receivedAt(c Case) string {
 	switch c.ReceivedAt {
@@ -121,7 +135,8 @@ func check(c Case) pbt.Result {
 	}
 	at := receivedAt(c)
 	r := spkit.Baseline(now, "id-req", audience)
-	r.Issuer = value(c.RespIssuer, spkit.IDPEntity)
+	r.Issuer = valueAt(c.RespIssuer, spkit.IDPEntity, at)
+	r.IssuerFormat = c.RespIssuerFormat
 	destCorrect := spkit.SPACS
 	if c.DestIsAt {
 		destCorrect = at
@@ -129,14 +144,15 @@ func check(c Case) pbt.Result {
 	r.Destination = value(c.Destination, destCorrect)
 	r.Status = statusCodes[c.Status]
 	a := &r.Assertions[0]
-	a.Issuer = value(c.AsrtIssuer, spkit.IDPEntity)
+	a.Issuer = valueAt(c.AsrtIssuer, spkit.IDPEntity, at)
+	a.IssuerFormat = c.AsrtIssuerFormat
 	a.Confirmations = nil
 	for i, rf := range c.Recipients {
 		m := ""
 		if i < len(c.Methods) {
 			m = methodURI(c.Methods[i])
 		}
-		a.Confirmations = append(a.Confirmations, forge.Confirmation{Method: m, Recipient: value(rf, spkit.SPACS), InResponseTo: forge.S("id-req"), NotOnOrAfter: forge.TP(now.Add(300e9))})
+		a.Confirmations = append(a.Confirmations, forge.Confirmation{Method: m, Recipient: valueAt(rf, spkit.SPACS, at), InResponseTo: forge.S("id-req"), NotOnOrAfter: forge.TP(now.Add(300e9)), NoData: rf.Class == "nodata"})
 	}
 	a.Audiences = nil
 	var auds []string
@@ -145,7 +161,7 @@ func check(c Case) pbt.Result {
 		if c.Validator == "own" {
 			correct = ownAudience
 		}
-		if v := value(af, correct); v != nil {
+		if v := valueAt(af, correct, at); v != nil {
 			auds = append(auds, *v)
 		}
 	}
@@ -215,6 +231,15 @@ func check(c Case) pbt.Result {
 	}
 	if c.Warm {
 		res.Classes = append(res.Classes, "sp-served-a-login-before")
+	}
+	if c.RespIssuerFormat != "" || c.AsrtIssuerFormat != "" {
+		res.Classes = append(res.Classes, "issuer-format-not-entity")
+	}
+	for _, f := range append(append([]Field{c.RespIssuer, c.AsrtIssuer}, c.Recipients...), c.Audiences...) {
+		if f.Class == "alt" && f.Kind == "received-at" && c.ReceivedAt != "acs" {
+			res.Classes = append(res.Classes, "field-names-the-delivery-url")
+			break
+		}
 	}
 	var defects []string // reasons for must-reject
 	dontCare := false
@@ -303,7 +328,7 @@ func check(c Case) pbt.Result {
 		defects = append(defects, "destination "+c.Destination.Class)
 	}
 
-	res.NonTrivial = near >= 1 || nonCorrect >= 2 || c.NoEntityID || c.Validator != "" || c.ReceivedAt != "acs"
+	res.NonTrivial = near >= 1 || nonCorrect >= 2 || c.NoEntityID || c.Validator != "" || c.ReceivedAt != "acs" || c.RespIssuerFormat != "" || c.AsrtIssuerFormat != ""
 	if near > 0 {
 		res.Classes = append(res.Classes, "near-miss")
 	}
@@ -354,6 +379,8 @@ func check(c Case) pbt.Result {
 
 var nearKinds = xgen.NearMissKeys
 
+var issuerFormats = []string{"", "-", "urn:oasis:names:tc:SAML:1.1:nameid-format:unspecified", "urn:oasis:names:tc:SAML:2.0:nameid-format:persistent", "urn:oasis:names:tc:SAML:2.0:nameid-format:transient", "urn:example:no-such-format", " "}
+
 func genField(t *rapid.T, label string, allowAbsent bool) Field {
 	classes := []string{"correct", "correct", "correct", "wrong", "near", "near", "alt", "empty"}
 	if allowAbsent {
@@ -385,18 +412,26 @@ func gen(t *rapid.T) Case {
 		AllowIDP:    rapid.IntRange(0, 3).Draw(t, "allowidp") == 0,
 	}
 	if rapid.IntRange(0, 2).Draw(t, "othertrust") == 0 {
-		c.Trust = rapid.SampledFrom(spkit.Trusts).Draw(t, "trust")
+		c.Trust = rapid.SampledFrom(spkit.TrustsIDP).Draw(t, "trust")
 	}
 	c.Warm = rapid.IntRange(0, 3).Draw(t, "warm") == 0
 	if rapid.IntRange(0, 2).Draw(t, "noise?") == 0 {
 		c.Noise = rapid.Uint64Range(1, 255).Draw(t, "noise")
+	}
+	if rapid.IntRange(0, 2).Draw(t, "issuerformats") == 0 {
+		c.RespIssuerFormat = rapid.SampledFrom(issuerFormats).Draw(t, "respIssuerFormat")
+		c.AsrtIssuerFormat = rapid.SampledFrom(issuerFormats).Draw(t, "asrtIssuerFormat")
 	}
 	if c.ReceivedAt != "acs" && c.Destination.Class == "correct" {
 		c.DestIsAt = rapid.Bool().Draw(t, "destIsAt")
 	}
 	nrec := rapid.SampledFrom([]int{1, 1, 1, 2, 3, 0}).Draw(t, "nrec")
 	for i := 0; i < nrec; i++ {
-		c.Recipients = append(c.Recipients, genField(t, "recipient", true))
+		rf := genField(t, "recipient", true)
+		if rapid.IntRange(0, 9).Draw(t, "bare") == 0 {
+			rf = Field{Class: "nodata"} // the confirmation has no SubjectConfirmationData, hence no Recipient
+		}
+		c.Recipients = append(c.Recipients, rf)
 		c.Methods = append(c.Methods, rapid.SampledFrom([]string{"", "", "", "hok", "sv"}).Draw(t, "method"))
 	}
 	naud := rapid.IntRange(0, 3).Draw(t, "naud")
@@ -438,6 +473,63 @@ func gen(t *rapid.T) Case {
 // enumSingleFault: every class (and every near-miss kind) of every field as the only
 // deviation from a fully correct response, crossed with signed/unsigned response,
 // entity-ID fallback and entry point.
+// enumDeliveredElsewhere: the message is delivered at a URL that is not the ACS URL; every addressing field in
+// turn carries that URL (or, for the issuers, a wrong value under every Issuer Format); Destination names the ACS
+// URL or the delivery URL.
+func enumDeliveredElsewhere(_ string, emit func(Case)) {
+	ok := Field{Class: "correct"}
+	at := Field{Class: "alt", Kind: "received-at"}
+	for _, entry := range []string{"xml", "post", "artifact"} {
+		for _, where := range []string{"other", "acsquery"} {
+			for _, destIsAt := range []bool{false, true} {
+				for _, rs := range []bool{false, true} {
+					base := Case{RespIssuer: ok, AsrtIssuer: ok, Recipients: []Field{ok}, Audiences: []Field{ok}, Destination: ok, DestIsAt: destIsAt, Status: "success", AsrtSigned: true, RespSigned: rs, ReceivedAt: where, Entry: entry}
+					emit(base)
+					c := base
+					c.Recipients = []Field{at}
+					emit(c)
+					c = base
+					c.Recipients = []Field{ok, at}
+					emit(c)
+					c = base
+					c.Recipients = []Field{at, ok}
+					c.Methods = []string{"hok", ""}
+					emit(c)
+					c = base
+					c.Audiences = []Field{at}
+					emit(c)
+					c = base
+					c.RespIssuer = at
+					emit(c)
+					c = base
+					c.AsrtIssuer = at
+					emit(c)
+				}
+			}
+		}
+		for _, rs := range []bool{false, true} {
+			for _, enc := range []bool{false, true} {
+				for _, recs := range [][]Field{{{Class: "nodata"}}, {ok, {Class: "nodata"}}, {{Class: "nodata"}, ok}} {
+					emit(Case{RespIssuer: ok, AsrtIssuer: ok, Recipients: recs, Audiences: []Field{ok}, Destination: ok, Status: "success", AsrtSigned: true, RespSigned: rs, Encrypted: enc, ReceivedAt: "acs", Entry: entry})
+				}
+			}
+		}
+		for _, f := range issuerFormats {
+			for _, wrong := range []Field{ok, {Class: "wrong"}, {Class: "alt", Kind: "sp-entity"}, {Class: "near", Kind: nearKinds[0]}, {Class: "empty"}} {
+				for _, rs := range []bool{false, true} {
+					base := Case{RespIssuer: ok, AsrtIssuer: ok, Recipients: []Field{ok}, Audiences: []Field{ok}, Destination: ok, Status: "success", AsrtSigned: true, RespSigned: rs, ReceivedAt: "acs", Entry: entry}
+					c := base
+					c.RespIssuer, c.RespIssuerFormat = wrong, f
+					emit(c)
+					c = base
+					c.AsrtIssuer, c.AsrtIssuerFormat = wrong, f
+					emit(c)
+				}
+			}
+		}
+	}
+}
+
 func enumSingleFault(_ string, emit func(Case)) {
 	var fields []Field
 	for _, cl := range []string{"correct", "wrong", "empty", "absent"} {
@@ -504,15 +596,15 @@ func enumSingleFault(_ string, emit func(Case)) {
 
 var prop = &pbt.Prop[Case]{
 	ID: "C03",
-	Rule: "cases: a genuinely IdP-signed response whose Response Issuer, Assertion Issuer, each confirmation Recipient, 0-3 audiences, Destination and StatusCode are each drawn from {correct, wrong, near-miss (11 kinds), another identifier of the same deployment (SP metadata URL / entity ID / ACS / SLO, IdP SSO URL / entity ID), empty, absent}, " +
+	Rule: "cases: a genuinely IdP-signed response whose Response Issuer, Assertion Issuer, each confirmation Recipient, 0-3 audiences, Destination and StatusCode are each drawn from {correct, wrong, near-miss (11 kinds), another identifier of the same deployment (SP metadata URL / entity ID / ACS / SLO, IdP SSO URL / entity ID, the URL the message was delivered at), empty, absent}, Issuer Format attributes in {entity, none, unspecified, persistent, transient, unknown, blank}, " +
 		"crossed with signed/unsigned Response, entity-ID set/unset, custom audience validator {none, accept, reject, own value}, received-at URL {ACS, other, ACS+query} and entry point {XML, POST, artifact}; " +
 		"exhaustive single-fault enumeration of every class and near-miss kind in every slot plus rapid full combinations. " +
 		"oracle: executable restatement of the property, three-valued (mixed audiences, zero confirmations, Destination=\"\" on unsigned responses, signed responses inside artifact responses: don't-care). " +
-		"non-trivial: >= 1 near-miss, or >= 2 non-correct fields, or entity-ID fallback / custom validator / received-at URL != ACS in play. distinct: sha256 of the JSON case.",
+		"non-trivial: >= 1 near-miss, or >= 2 non-correct fields, or entity-ID fallback / custom validator / received-at URL != ACS / a non-entity Issuer Format in play. distinct: sha256 of the JSON case.",
 	Gen:         gen,
 	Check:       check,
 	Reset:       fix.Reset,
-	Enums:       []pbt.Enum[Case]{{Name: "single-fault-grid", Each: enumSingleFault}},
+	Enums:       []pbt.Enum[Case]{{Name: "single-fault-grid", Each: enumSingleFault}, {Name: "delivered-elsewhere-and-issuer-formats", Each: enumDeliveredElsewhere}},
 	Assumptions: []string{"instants, InResponseTo and signatures are valid in every case so that acceptance hinges on the addressing fields alone"},
 }
 
